@@ -31,7 +31,8 @@ CONSTANTS Totals,     \* numbers of parts explored (each >= 1); the block's Tota
           MaxLen
 
 VARIABLES Total,      \* number of parts of this block
-          have, count, stored, hist
+          have, count, stored, hist,
+          fin         \* simulation only: set by Finish so that one behaviour is emitted per trace
 vars == <<Total, have, count, stored>>
 View == vars
 Idx == 0..(Total - 1)
@@ -43,6 +44,7 @@ Proj(h, c) == [count |-> c, have |-> h, complete |-> (c = Total)]
 
 Init == /\ Total \in Totals
         /\ have = {} /\ count = 0 /\ stored = [i \in Idx |-> "none"]
+        /\ fin = FALSE
         /\ hist = << [act |-> "Init", idx |-> Total, cls |-> "", reply |-> "", st |-> Proj({}, 0)] >>
 
 Reply(idx, cls) == IF idx >= Total THEN "index"
@@ -51,7 +53,7 @@ Reply(idx, cls) == IF idx >= Total THEN "index"
                    ELSE "added"
 
 AddPart(idx, cls) ==
-  /\ Len(hist) < MaxLen
+  /\ Len(hist) < MaxLen /\ UNCHANGED fin
   /\ cls \in NeedsOther => Total > 1
   /\ Mode = "perm" => (cls = "good" /\ idx \in Idx /\ idx \notin have)
   /\ LET r == Reply(idx, cls) IN
@@ -63,7 +65,11 @@ AddPart(idx, cls) ==
           /\ hist' = Append(hist, [act |-> "AddPart", idx |-> idx, cls |-> cls, reply |-> r, st |-> Proj(have, count)])
 
 Next == \E idx \in 0..(Total + 1), cls \in Classes : AddPart(idx, cls)
-Spec == Init /\ [][Next]_<<vars, hist>>
+\* simulation: TLC evaluates invariants on every generated successor, so emission is tied to a last step
+\* that has exactly one successor
+Finish == Len(hist) >= MaxLen /\ ~fin /\ fin' = TRUE /\ UNCHANGED <<vars, hist>>
+NextSim == Next \/ Finish
+Spec == Init /\ [][Next]_<<vars, hist, fin>>
 
 \* ------------------------------------------------------------------ properties (C39)
 TypeOK == have \subseteq Idx /\ count \in 0..Total
@@ -80,6 +86,6 @@ StepShape == [][\/ UNCHANGED vars
                                   /\ stored' = [stored EXCEPT ![i] = "good"] /\ UNCHANGED Total]_vars
 
 Emit == PrintT(<<"TRACE", ToJson(hist)>>)
-EmitAtEnd == Len(hist) < MaxLen \/ Emit
+EmitAtEnd == ~fin \/ Emit
 EmitEdge == PrintT(<<"EDGE", ToJson(hist')>>)
 =============================================================================
